@@ -123,6 +123,9 @@ class Recorder:
 
             async def on_close(self, rsocket, exception=None):
                 rec.on_close_calls += 1          # not part of the trace: counted for C11
+                for _ in range(getattr(rec, 'on_close_suspends', 0)):      # an application hook that takes a while
+                    await asyncio.sleep(0)
+                rec.on_close_finished = getattr(rec, 'on_close_finished', 0) + 1
                 if getattr(rec, 'on_close_raises', False):
                     raise RuntimeError('on_close failed')
         return H
